@@ -89,9 +89,9 @@ add("C18", E2,
     "runtime monitoring: concurrent stress with delay injection + offline history fold checker; TSan + Miri schedule exploration")
 
 add("C20", E2,
-    "Runtime monitor: real TableManager with the kernel crate's verification handle as kernel_handle; histories of insert / replace / remove / peer drop / GR stale + purge / soft_reset_in with import-policy changes / next-hop reachability reports over 3 peers sharing 3 next hops, IPv4 + IPv6 + VPNv4 imported into two VRFs; after every operation the drained request stream is folded: FIB replay per (table, prefix) must equal the next hops of the best path and the paths tied with it before the router-id step (own tie key), NHT registrations minus unregistrations per address must equal the peer-learned paths using it (never negative), and no path via an unreachable next hop may be eligible. Failing histories are delta-debugged.",
-    "Trusted: the fold of the request stream and the reference tie key; observation at the request channel, not Netlink; VRFs whose import targets do not match the current best are not judged. Sequential histories.",
-    "runtime monitoring: replay of the recorded request stream vs recount of the RIB after every step (conservation + equality invariants)")
+    "Runtime monitor: real TableManager with the kernel crate's verification handle as kernel_handle; histories of insert / replace / remove / peer drop / GR stale + purge / soft_reset_in with import-policy changes / next-hop reachability reports over 3 peers sharing 3 next hops, IPv4 + IPv6 + VPNv4 imported into two VRFs; after every operation the drained request stream is folded: FIB replay per (table, prefix) must equal the next hops of the best path and the paths tied with it before the router-id step (own tie key), NHT registrations minus unregistrations per address must equal the peer-learned paths using it (never negative), and no path via an unreachable next hop may be eligible. Failing histories are delta-debugged. Concurrent part: one thread per session, one delivering the (serialised) reachability reports and one doing import-policy changes + soft resets, with delay injection at the table_manager.rs scheduling points; at the quiescent end of each history the same oracle is applied, plus the converse of exclusion (a path whose next hop is reachable is eligible).",
+    "Trusted: the fold of the request stream and the reference tie key; observation at the request channel, not Netlink; VRFs whose import targets do not match the current best are not judged. Concurrent failures are not deterministically replayable (witness: per-thread operation lists, delay seed, reproduction rate in 10 re-runs).",
+    "runtime monitoring: replay of the recorded request stream vs recount of the RIB after every step and at quiescent points of multi-threaded histories with delay injection (conservation + equality invariants)")
 
 def main():
     props = [json.loads(l) for l in open(os.path.join(V, "properties.jsonl"))]
